@@ -27,7 +27,8 @@ from common import CORPUS_DIR, InfraError, call
 
 RULE = ("histories of 2..14 operations: public mutators (translate_rotate on scenario / obstacle / prediction / network level, on a "
         "free lanelet, on a lanelet a network holds and on the trajectory a prediction holds; Trajectory.append_state on a held "
-        "trajectory; setters of prediction shape / trajectory (a new object, or the same object edited in place and re-assigned) / "
+        "trajectory; setters of prediction shape / trajectory, obstacle initial_state and cycle_elements — each with a new object or with the "
+        "SAME object edited in place and handed back to the setter (incl. `cycle_elements += [...]`); setters of "
         "wheelbase / assignments, obstacle initial_state / prediction / update_prediction / update_initial_state with bounds 1..6, "
         "the default and bounds lowered later, add_lanelet / add_lanelets_from_network / remove_lanelet with and without rtree, "
         "convert_to_2d on network / scenario / free lanelet / held lanelet, deepcopy, pickle, cycle_elements / time_offset / active "
@@ -80,7 +81,8 @@ REQUIRED_BUCKETS = [f"row/{i}/{m}" for i, m in ROWS] + [
     "hist/truncated", "hist/not-truncated", "hist/m=1", "hist/default-bound", "hist/bad-bound", "net/3d", "net/rtree-false",
     "net/by-shape", "net/old-place", "net/add-from-refused", "lan/3d", "lan/3d-move-raises", "cyc/replace", "cyc/length-change",
     "mut/trajectory-same-object-reassigned", "hist/bound-lowered", "mut/held-trajectory-translate", "mut/held-trajectory-append",
-    "mut/member-lanelet-translate", "mut/member-lanelet-convert2d", "net/stale-entry-survives-rebuild", "hist/moved"]
+    "mut/member-lanelet-translate", "mut/member-lanelet-convert2d", "net/stale-entry-survives-rebuild", "hist/moved",
+    "mut/cycle-elements-same-list-reassigned", "mut/initial-state-same-object-reassigned"]
 
 TOL = 1e-9
 
@@ -328,10 +330,12 @@ def g_motion_nz(r):
 
 def g_shape(r):
     k = r.choice(["rect", "rect", "circle", "poly"])
+    # a third of the rectangles / circles have their reference point off the centre (e.g. at the rear axle) and a local orientation
+    off = {"c": [r.choice([1.25, -0.5, 2.0]), r.choice([0.0, 0.75])], "o": r.choice([0.0, 0.0, 0.4])} if r.random() < 0.33 else {}
     if k == "rect":
-        return {"k": "rect", "l": r.choice([4.5, 2.0, 12.0, r.randint(8, 80) / 8.0]), "w": r.choice([2.0, 1.0, r.randint(4, 24) / 8.0])}
+        return dict({"k": "rect", "l": r.choice([4.5, 2.0, 12.0, r.randint(8, 80) / 8.0]), "w": r.choice([2.0, 1.0, r.randint(4, 24) / 8.0])}, **off)
     if k == "circle":
-        return {"k": "circle", "r": r.choice([0.5, 1.0, r.randint(2, 24) / 8.0])}
+        return dict({"k": "circle", "r": r.choice([0.5, 1.0, r.randint(2, 24) / 8.0])}, **({"c": off["c"]} if off else {}))
     s = r.choice([1.0, 2.0, 0.5])
     return {"k": "poly", "v": [[-2 * s, -s], [2 * s, -s], [2.5 * s, 0.0], [2 * s, s], [-2 * s, s]]}
 
@@ -340,9 +344,9 @@ def b_shape(sp):
     import numpy as np
     from commonroad.geometry.shape import Circle, Polygon, Rectangle
     if sp["k"] == "rect":
-        return Rectangle(sp["l"], sp["w"])
+        return Rectangle(sp["l"], sp["w"], np.array(sp.get("c", [0.0, 0.0]), dtype=float), sp.get("o", 0.0))
     if sp["k"] == "circle":
-        return Circle(sp["r"])
+        return Circle(sp["r"], np.array(sp.get("c", [0.0, 0.0]), dtype=float))
     return Polygon(np.array(sp["v"], dtype=float))
 
 
@@ -495,7 +499,8 @@ def gen_obs(ctx):
             ops.append(["tr", t, a, "scenario" if case["wrap"] == "scenario" and r.random() < 0.6 else "obstacle"])
         elif k == "set_init":
             t0 = t0 + r.choice([0, 0, 1])
-            ops.append(["set_init", g_state(r, t0)])
+            # a new state object, or the state the obstacle holds edited in place and handed back to the setter
+            ops.append(["set_init", g_state(r, t0)] if r.random() < 0.7 else ["set_init", g_state(r, t0), "same"])
         elif k == "set_shape":
             ops.append(["set_shape", g_shape(r)])
         elif k == "set_pred":
@@ -730,7 +735,14 @@ def run_obs(ctx, case, model=True):
             m_ops.append(["tr", v])
         elif k == "set_init":
             def f():
-                obs.initial_state = b_init(op[1])
+                if len(op) > 2:
+                    held, fresh_st = obs.initial_state, b_init(op[1])
+                    for a in fresh_st.used_attributes:
+                        setattr(held, a, getattr(fresh_st, a))     # edited in place ...
+                    obs.initial_state = held                       # ... and the same object through the public setter
+                    ctx.tag("mut/initial-state-same-object-reassigned")
+                else:
+                    obs.initial_state = b_init(op[1])
             r = call(f)
             rows.mutate("initialOccupancy", "obsSetInitialState")
             m_ops.append(["set_init", v, op[1]["t"]])
@@ -1487,8 +1499,14 @@ def gen_cyc(ctx):
         old = (es, off)
         k = r.choice(["set_es", "set_es", "set_off", "set_off", "set_active"] + (["replace"] if case["light"] else []))
         if k == "set_es":
-            es = g_cycle(r)
-            ops.append(["set_es", es])
+            how = r.choice(["new", "new", "same", "iadd"])
+            if how == "iadd":
+                # `cycle.cycle_elements += [...]`: getter, list.__iadd__ in place, setter with the identical list object
+                es = es + g_cycle(r)[:r.choice([1, 1, 2])]
+            else:
+                # a new list, or ("same") the list the cycle holds edited in place and handed back to the setter
+                es = g_cycle(r)
+            ops.append(["set_es", es] if how == "new" else ["set_es", es, how])
         elif k == "set_off":
             off = r.choice([off + 1, off + 2, max(0, off - 1), r.randint(0, 40), 0])
             ops.append(["set_off", off])
@@ -1560,8 +1578,20 @@ def run_cyc(ctx, case, model=True):
             impl.append(outs)
             continue
         if k == "set_es":
+            how = op[2] if len(op) > 2 else "new"
+            new_els = [TrafficLightCycleElement(st[s], d) for s, d in op[1]]
+
             def f():
-                c.cycle_elements = [TrafficLightCycleElement(st[s], d) for s, d in op[1]]
+                if how == "iadd":
+                    c.cycle_elements += new_els[n_el:]         # the augmented assignment goes through getter and setter
+                elif how == "same":
+                    held = c.cycle_elements
+                    held[:] = new_els                          # edited in place ...
+                    c.cycle_elements = held                    # ... and the same list object through the public setter
+                else:
+                    c.cycle_elements = new_els
+            if how != "new":
+                ctx.tag("mut/cycle-elements-same-list-reassigned")
             r = call(f)
             if len(op[1]) != n_el:
                 ctx.tag("cyc/length-change")
@@ -1593,7 +1623,8 @@ def run_cyc(ctx, case, model=True):
     ctx.case(case)
     if not model:
         return
-    out = ctx.driver.ask("C11", "cyc_run", {"es": case["es"], "off": case["off"], "active": case["active"], "ops": case["ops"]})
+    m_ops = [op[:2] if op[0] == "set_es" else op for op in case["ops"]]     # for the model it is `cycle_elements = <these elements>` either way
+    out = ctx.driver.ask("C11", "cyc_run", {"es": case["es"], "off": case["off"], "active": case["active"], "ops": m_ops})
     ctx.compare(case, impl, out, "traffic light cycle history vs CR.Cache.cycRun")
 
 
